@@ -217,6 +217,9 @@ static void probe(const std::string &label, const std::vector<char> &bytes, cons
     tolerated_bad_alloc = true;   // decided by C18's bound: tolerated only if justified by declared counts
   } catch (const std::length_error &) {
     tolerated_bad_alloc = true;   // std::vector refusing an absurd size: the same class of exit as a failed allocation
+    // under the allocation accounting it IS a request: one for more than any allocator can give (judged like a refused request of 2^50 bytes
+    // against the counts declared at this moment)
+    if (want_allocs && g_as.refused_size < (1ll << 50)) { g_as.refused++; g_as.refused_size = 1ll << 50; g_as.declared_at_refused = g_as.declared; }
   }
   g_as.on = false;
   const bool modified = vrt::fnv1a(buf.data(), buf.size()) != h0;
